@@ -75,7 +75,19 @@ fn seeds(c: &Value) -> Value {
     // reference: what the real SmallRng emits for a given seed (ties Base/Rng.v to rand)
     let mut r = SmallRng::seed_from_u64(seed);
     let reference: Vec<u64> = (0..k).map(|_| r.next_u64()).collect();
-    json!({"mh": mh, "gibbs": gibbs, "reference": reference})
+    // float conversions of rand's StandardUniform and the harness's injection state (ties Base/Rng.v uniform53 /
+    // uniform24 / inject_state): numerators u * 2^53, u * 2^24
+    use rand::Rng;
+    let u64n = |mut r: SmallRng| -> u64 { (r.random::<f64>() * 9007199254740992.0) as u64 };
+    let u32n = |mut r: SmallRng| -> u64 { (r.random::<f32>() * 16777216.0) as u64 };
+    let uniforms: Vec<u64> = vec![
+        u64n(SmallRng::seed_from_u64(seed)),
+        u32n(SmallRng::seed_from_u64(seed)),
+        rng_first_output(seed).next_u64(),
+        u64n(rng_first_output(seed)),
+        u32n(rng_first_output(seed)),
+    ];
+    json!({"mh": mh, "gibbs": gibbs, "reference": reference, "uniforms": uniforms})
 }
 
 fn init_ops(c: &Value) -> Value {
